@@ -68,6 +68,8 @@ class Interp(StrOps, AbsOps, Methods):
         self.fnstack = []
         self.EXC = sys.modules['stdnum.exceptions']
         self.max_depth = 25
+        self.cur = None
+        ctx.where = lambda: '%s:%s' % (self.fnstack[-1] if self.fnstack else '?', getattr(self.cur, 'lineno', '?'))
         self.inline_numdb_limit = 400
 
     # ------------------------------------------------------------------ helpers
@@ -135,6 +137,10 @@ class Interp(StrOps, AbsOps, Methods):
             v = self.materialise(v)
         if isinstance(v, LongStr):
             return self.long_subscript(v, sl)
+        if isinstance(v, OpaqueSeq):
+            if isinstance(sl, slice):
+                return v
+            raise Unsupported('index into an unbounded sequence')
         if isinstance(sl, slice):
             parts = [sl.start, sl.stop, sl.step]
             if any(is_sym(x) for x in parts):
@@ -944,6 +950,7 @@ class Interp(StrOps, AbsOps, Methods):
     def stmt(self, s, env, module):
         ctx = self.ctx
         t = type(s)
+        self.cur = s
         if t is ast.Expr:
             if isinstance(s.value, ast.Constant):
                 return
